@@ -768,6 +768,30 @@ func main() {
 			if l := planar.Length(ls); !relClose(l, L, 0) {
 				c.Failf("length", "Length(%v) = %v want %v", ls, l, L)
 			}
+			// several lines: the centroid of a multi-line-string is the length-weighted mean over all its segments,
+			// whatever the number of vertices of each member (two-point members, longer ones, a degenerate one)
+			seconds := [][]ipt{{{0, 0}, {6, 0}}, {{3, 0}, {3, 4}, {6, 8}}, {{0, 4}, {0, 4}}}
+			var ls2 orb.LineString
+			L2, wx2, wy2 := L, wx, wy
+			var i2 []ipt
+			for _, q := range seconds[c.Choose(len(seconds))] {
+				i2 = append(i2, tr(t, q))
+				ls2 = append(ls2, fpt(tr(t, q)))
+			}
+			for i := 1; i < len(i2); i++ {
+				d := math.Sqrt(float64((i2[i][0]-i2[i-1][0])*(i2[i][0]-i2[i-1][0]) + (i2[i][1]-i2[i-1][1])*(i2[i][1]-i2[i-1][1])))
+				L2 += d
+				wx2 += d * float64(i2[i][0]+i2[i-1][0]) / 2
+				wy2 += d * float64(i2[i][1]+i2[i-1][1]) / 2
+			}
+			for _, mls := range []orb.MultiLineString{{ls, ls2}, {ls2, ls}} {
+				if mc2, ma := planar.CentroidArea(mls); ma != 0 || !relClose(mc2[0], wx2/L2, 4*scale) || !relClose(mc2[1], wy2/L2, 4*scale) {
+					c.Failf("multilinestring-centroid", "CentroidArea(%v) = %v,%v want the length-weighted mean over all segments (%v,%v)", mls, mc2, ma, wx2/L2, wy2/L2)
+				}
+				if l := planar.Length(mls); !relClose(l, L2, 4*scale) {
+					c.Failf("length", "Length(%v) = %v want %v", mls, l, L2)
+				}
+			}
 			// a collection holding only this line (top dimension 1): length-weighted mean of its members
 			cc, _ := planar.CentroidArea(orb.Collection{ls, mp})
 			if !relClose(cc[0], wx/L, scale) || !relClose(cc[1], wy/L, scale) {
